@@ -11,7 +11,7 @@ import (
 func VerifC11_Tokenizer() {
 	n := 4
 	if rt.Thorough() {
-		n = 6
+		n = 5
 	}
 	s := rt.StrN("s", 0, n)
 	rt.SetUnwind(len(s) + 3) // terminates within len+2 iterations of every loop
